@@ -185,7 +185,15 @@ bool w_eliasCode(uint64_t v, unsigned start, size_t g, _Bool delta)
     uint64_t back = delta ? varintEliasDeltaDecode(&r) : varintEliasGammaDecode(&r);
     return ok && back == v && r.bitPos == start + want;
 }
-void H_eliasCode(void) { uint64_t v; unsigned s; size_t g; _Bool d = ELIAS_DELTA; w_eliasCode(v, s, g, d); CANARY(); }
+/* ELIAS_CLASS=k (quick tier): the same contract enforced for the values of one bit-length class 2^k <= v < 2^(k+1) only;
+ * the restriction is an assumption of the harness, not of the contract, and is reported as a stated bound */
+void H_eliasCode(void) {
+    uint64_t v; unsigned s; size_t g; _Bool d = ELIAS_DELTA;
+#ifdef ELIAS_CLASS
+    __CPROVER_assume((v >> ELIAS_CLASS) == 1);
+#endif
+    w_eliasCode(v, s, g, d); CANARY();
+}
 
 /* ---- M1: readers on arbitrary input ---- */
 void H_eliasReaderRead(void) { varintBitReader *r; size_t n; varintBitReaderRead(r, n); CANARY(); }
